@@ -95,6 +95,7 @@ _saved = None
 _real_sleep = _time.sleep
 _real_sock_init = _socket.socket.__init__
 _real_default_selector = _selectors.DefaultSelector
+_real_get_exposed_members = SV._get_exposed_members
 _real_worker_init = ST.Worker.__init__
 _real_worker_hash = ST.Worker.__hash__
 _real_create_socket = SU.create_socket
@@ -130,6 +131,14 @@ def install(sched, net, uuid_seed=0, line_codes=()):
     ST.Worker.__init__ = winit
     ST.Worker.__hash__ = lambda self: self._sidx
 
+    # string-hash order: the exposed-member metadata are sets of strings; json/marshal/msgpack write them in iteration
+    # order, so with compression the handshake reply's LENGTH would depend on PYTHONHASHSEED. Hand out sorted lists.
+    def members(obj, only_exposed=True):
+        r = _real_get_exposed_members(obj, only_exposed)
+        return {k: sorted(v) for k, v in r.items()}
+
+    SV._get_exposed_members = members
+
     # tripwires
     def sleep(d):
         if sched.in_sim():
@@ -163,6 +172,7 @@ def uninstall():
     for m in _SELECTOR_MODS:
         m.selectors = _selectors
     SV.uuid = _uuid
+    SV._get_exposed_members = _real_get_exposed_members
     SU.create_socket = _real_create_socket
     SU.USE_MSG_WAITALL = _real_waitall
     ST._client_disconnect_lock = _real_cd_lock
